@@ -29,7 +29,7 @@ ASSUMPTIONS = [
     "the performance-progress constant is never passed through a macro parameter; macro bodies do not use a free constant named like a parameter (variable capture is not specified)",
     "macro bodies are self-contained: no break / continue / break_loop referring to a construct of the caller, labels are used only inside the macro that defines them",
 ]
-CASES = {"quick": 2400, "thorough": 50000}
+CASES = {"quick": 4800, "thorough": 50000}
 
 
 def strategy(tier):
